@@ -70,10 +70,11 @@ const (
 	MRecMix                         // records: A = v.A*3 + d.A, B = d.B (order-sensitive, same length as the delta)
 	MMax                            // strings: the greater of value and delta, returned AS IS (no copy; commutative)
 	MRecAddInPlace                  // records: v.A += d.A, returns v itself (mutates and returns one of its arguments; commutative)
+	MSetOrAppend                    // strings: a delta "=text" sets the value to a SUB-SLICE of the delta (no copy), anything else is appended (changes the length)
 	numMergeKinds
 )
 
-var mergeNames = [...]string{"default", "muladd", "concat", "mix", "recsum", "recmix", "max", "recadd-inplace"}
+var mergeNames = [...]string{"default", "muladd", "concat", "mix", "recsum", "recmix", "max", "recadd-inplace", "set-or-append"}
 
 func (m MergeKind) String() string { return mergeNames[m] }
 
@@ -238,6 +239,8 @@ func mergeBytes(k Kind, mk MergeKind, cur, delta string) string {
 			return mixString(cur, delta)
 		case MMax:
 			return maxString(cur, delta)
+		case MSetOrAppend:
+			return setOrAppend(cur, delta)
 		}
 		return delta
 	case KRecord:
@@ -267,11 +270,20 @@ func mergeBytes(k Kind, mk MergeKind, cur, delta string) string {
 // mergeChangesLen reports whether a merge on this column can produce a result
 // whose length differs from the delta's (the trigger class of known finding F15).
 func mergeChangesLen(k Kind, mk MergeKind) bool {
-	return (k == KString && (mk == MConcat || mk == MMax)) || (k == KRecord && mk == MRecSum)
+	return (k == KString && (mk == MConcat || mk == MMax || mk == MSetOrAppend)) || (k == KRecord && mk == MRecSum)
 }
 
 // maxString returns one of its arguments unchanged (a merge function that hands
 // the delta back as is must not make the stored value alias the transaction buffer).
+// setOrAppend: "=text" replaces the value by text - handed back as a sub-slice of the delta, which
+// is neither the delta itself nor a copy - anything else is appended.
+func setOrAppend(v, d string) string {
+	if len(d) > 0 && d[0] == '=' {
+		return d[1:]
+	}
+	return v + d
+}
+
 func maxString(v, d string) string {
 	if d > v {
 		return d
@@ -386,6 +398,8 @@ func newColumn(cs ColSpec) column.Column {
 			return column.ForString(column.WithMerge(mixString))
 		case MMax:
 			return column.ForString(column.WithMerge(maxString))
+		case MSetOrAppend:
+			return column.ForString(column.WithMerge(setOrAppend))
 		}
 		return column.ForString()
 	case KEnum:
